@@ -11,6 +11,7 @@ import (
 	"runtime"
 	"strings"
 	"sync"
+	"sync/atomic"
 	"time"
 
 	"github.com/NethermindEth/juno/core/felt"
@@ -58,6 +59,31 @@ type ctx struct {
 	legacyFalse map[string][2]int
 	// drivers for synchronous questions (r2need)
 	syncDrv chan *lib.Driver
+	// model/code comparisons per family (floors at the end of the run)
+	compared [len(families)]atomic.Int64
+}
+
+// families of model/code comparisons and the least number of each a complete run makes (quick tier,
+// about half of what seed 1 gives): a section that silently produces nothing is a harness failure.
+var families = [...]struct {
+	name  string
+	floor int64
+}{
+	{"verify", 45000}, {"prover", 4000}, {"range-model", 10000}, {"rpc", 1000}, {"weird", 2500},
+}
+
+func familyOf(ch *check) int {
+	switch {
+	case strings.HasPrefix(ch.line, "pv "):
+		return 1
+	case strings.HasPrefix(ch.line, "r2 "):
+		return 2
+	case strings.HasPrefix(ch.sig, "rpc-"):
+		return 3
+	case strings.Contains(ch.sig, "weird"):
+		return 4
+	}
+	return 0
 }
 
 func (c *ctx) modelLine(verifier, root, key string, p Proof, hash string) string {
@@ -93,6 +119,7 @@ func (c *ctx) judge(ch *check, model string) {
 	}
 	if ch.impl != "" {
 		res.Compared(1)
+		c.compared[familyOf(ch)].Add(1)
 		if !sameAnswer(model, ch.impl) {
 			res.Mismatch(lib.Mismatch{Sig: ch.sig, Input: ch.replay(), Model: model, Impl: ch.impl})
 		}
@@ -252,6 +279,15 @@ func main() {
 	close(ch)
 	wg.Wait()
 	c.legacyFractionCheck()
+	bySection := map[string]int64{}
+	for i, fam := range families {
+		n := c.compared[i].Load()
+		bySection[fam.name] = n
+		if n < fam.floor {
+			res.Fatalf("only %d model/code comparisons of family %q (a complete run makes at least %d): a section produced nothing", n, fam.name, fam.floor)
+		}
+	}
+	res.SetExtra("compared_by_family", bySection)
 	timing["all_answers_judged_s"] = time.Since(t0).Seconds()
 	res.SetExtra("timing", timing)
 	lib.Finish(f, res)
